@@ -97,7 +97,11 @@ def correspondence(ctx):
     _crashpoints(ctx, "teardown-crashpoints",
                  {"VERIF_TD_STRIDE": ctx.scale(2, 1), "VERIF_TD_REPEAT": ctx.scale(1, 3)})
     simcommon.sim_monitor(ctx, "read-deadline-goroutine", "TestVerifSimTeardownDeadline", {}, "SIMTDDEADLINE")
+    # the model's residual refutation (T1 failure callback racing with the completion of the handshake): the Go
+    # scheduler decides, so this is a search with a budget; it stops at the first observed failure
+    simcommon.sim_monitor(ctx, "t1-callback-race", "TestVerifSimTeardownT1Race", {"VERIF_N": ctx.scale(12000, 60000)}, "SIMTDRACE")
 
 
 def search(ctx):
+    simcommon.sim_monitor(ctx, "t1-callback-race-wide", "TestVerifSimTeardownT1Race", {"VERIF_N": 100000}, "SIMTDRACE")
     _crashpoints(ctx, "teardown-crashpoints-all", {"VERIF_TD_STRIDE": 1, "VERIF_TD_REPEAT": 4, "VERIF_SEED": ctx.seed + 17})
